@@ -32,8 +32,12 @@ def has_line_break(text: str) -> bool:
     return False
 
 
+FAULT_EXCEPTIONS = {'PeerFault': PeerFault, 'TypeError': TypeError, 'ValueError': ValueError, 'KeyError': KeyError,
+                    'RuntimeError': RuntimeError, 'AttributeError': AttributeError}
+
+
 class Peer:
-    __slots__ = ('seed', 'style', 'protect', 'log', 'n', 'fail_at', 'fired')
+    __slots__ = ('seed', 'style', 'protect', 'log', 'n', 'fail_at', 'fired', 'fail_exc')
 
     def __init__(self, spec: dict, protect=()):
         self.seed = spec.get('seed', 0)
@@ -43,12 +47,15 @@ class Peer:
         self.n = 0
         self.fail_at = None
         self.fired = False
+        self.fail_exc = PeerFault
 
-    def begin(self, fail_at=None):
+    def begin(self, fail_at=None, exc=None):
         self.log = []
         self.n = 0
         self.fail_at = fail_at
         self.fired = False
+        # the editor's callback fails the way real callbacks do: with ordinary exceptions
+        self.fail_exc = FAULT_EXCEPTIONS.get(exc or 'PeerFault', PeerFault)
 
     # -- answers ------------------------------------------------------------
     def _field_style(self, n):
@@ -107,7 +114,7 @@ class Peer:
         n = self.n
         if self.fail_at is not None and n == self.fail_at:
             self.fired = True
-            raise PeerFault('peer failed at invocation %d (field)' % n)
+            raise self.fail_exc('peer failed at invocation %d (field)' % n)
         ret = self.answer_field(n, index, placeholder)
         self.log.append(('field', index, placeholder, kw.get('offset'), kw.get('line'), kw.get('column'), ret))
         return ret
@@ -117,7 +124,7 @@ class Peer:
         n = self.n
         if self.fail_at is not None and n == self.fail_at:
             self.fired = True
-            raise PeerFault('peer failed at invocation %d (text)' % n)
+            raise self.fail_exc('peer failed at invocation %d (text)' % n)
         ret = self.answer_text(n, text)
         self.log.append(('text', None, text, kw.get('offset'), kw.get('line'), kw.get('column'), ret))
         return ret
